@@ -76,7 +76,7 @@ def run(tier):
               "Non-trivial: at least two deliveries; distinct by session.")
     c.assumptions = ["uploads are frozen during the initial volume search; directories ahead of the newest are empty (EnvAheadIsEmpty)",
                      "consumer stop/drop happen at request boundaries in recorded sessions (all positions in the model)",
-                     "virtual time: tokio paused clock, upload times in the past so the wall-clock sleep_until branch is not taken"]
+                     "virtual time: tokio's paused clock; three sessions in four have upload times in the past (the poller never sleeps until an estimate), one in four is stamped a day and a half ahead of this machine's clock (it sleeps, in virtual time, before every request)"]
     vlib.build_harness()
     c.model("MC_Poll", "MC_Poll_thorough" if thorough else "MC_Poll",
             actions=("Upload", "CStop", "CDrop", "PSearch", "PListLatest", "PGetLatest", "PDeliverLatest", "PGetMeta", "PLoopTop", "PNext", "PListNext", "PGet", "PDeliver"), timeout=3000)
